@@ -231,7 +231,32 @@ def gen_cases(tier, seed):
         first.append(mk(setup, 7, molids[0], [{"name": "coprime-2-3-5", "cad": dict(cad), "resume": None},
                                               {"name": "coprime-2-3-5+resume", "cad": dict(cad),
                                                "resume": {"after_step": 4}}], "%s/N7/sentinel" % setup))
-    return first + cases
+    # --- resume residues: enumerate, rather than sample, the relation between (xyz cadence, checkpoint cadence, number
+    #     of steps the first process completed past its last checkpoint): xyz in {1,2}, checkpoint in {2,3}, resumed
+    #     checkpoint = first or second one, 1..c-1 completed steps past it - such that the frames labelled checkpoint+1
+    #     and checkpoint+2 are (or are not) due.  Crash by exception (frames past the checkpoint are on disk) in
+    #     quick; both crash styles and all four engines in thorough.
+    combos = []
+    for xyz in (1, 2):
+        for c in (2, 3):
+            for r in (c, 2 * c):
+                for off in range(1, c):
+                    combos.append((xyz, c, r, off))
+    if tier == "quick":
+        keep = {(1, 3, 3, 2), (1, 3, 6, 1), (1, 2, 2, 1), (2, 3, 3, 1), (2, 3, 3, 2), (2, 3, 6, 2)}
+        combos = [x for x in combos if x in keep]
+    res_cases = []
+    for setup in (["bomd_batch"] if tier == "quick" else setups[:4]):
+        _, _, molids = ENGINE_SETUPS[setup]
+        tuples = []
+        for xyz, c, r, off in combos:
+            cad = dict(data=2, coordinates=3, velocities=1, forces=2, xyz=xyz, nonadiabatic=2, print=2, checkpoint=c)
+            for mode in (("raise",) if tier == "quick" else ("raise", "exit")):
+                tuples.append({"name": "residue-xyz%d-ck%d-r%d+%d-%s" % (xyz, c, r, off, mode), "cad": cad,
+                               "resume": {"after_step": r + off + 1, "mode": mode}})
+        for k in range(0, len(tuples), 6):
+            res_cases.append(mk(setup, 9, molids[0], tuples[k:k + 6], "%s/N9/resume-residues/%d" % (setup, k // 6)))
+    return first + res_cases[:1] + cases[:8] + res_cases[1:] + cases[8:]
 
 
 # ---------------------------------------------------------------------------------------
@@ -541,9 +566,12 @@ def run_case(case):
             if tup.get("resume"):
                 # hard kill right after integrator step number `after_step` (1-based) returned, i.e. before any
                 # output of that step is written; then resume the way a user does
-                job["crash"] = {"target": "step", "n": int(tup["resume"]["after_step"]), "phase": "after", "mode": "exit"}
+                # (mode "raise": an exception instead, so the repository's finally block closes - and thereby flushes -
+                # the writers: everything written after the last checkpoint is then on disk when the run is resumed)
+                mode = tup["resume"].get("mode", "exit")
+                job["crash"] = {"target": "step", "n": int(tup["resume"]["after_step"]), "phase": "after", "mode": mode}
                 r = mdio.fork_child(job, timeout=600)
-                if r["code"] != mdio.EXIT_CRASH:
+                if r["code"] != (mdio.EXIT_CRASH if mode == "exit" else mdio.EXIT_EXC_CRASH):
                     viol_or_inc = "crash child ended with %r instead of the injected kill" % (r,)
                     obs["tuples"][tup["name"]] = viol_or_inc
                     continue
